@@ -25,8 +25,11 @@ Definition v_unbind (v : arr) (d : nat) : res (list arr) :=
 Definition v_split (v : arr) (sizes : list Z) (d : nat) : res (list arr) :=
   match shape_of v with
   | Some sh => match nth_error sh d with
-               | Some s => if fold_right Z.add 0 sizes =? s
-                           then Ok (map (fun se => Index (narrow_idx d (fst se) (snd se)) v) (offsets 0 sizes)) else Raised
+               | Some s => (* D4 (C02): the first piece's batch size is not clamped; when it exceeds the dim the piece is
+                              incoherent and what follows is member-level coercion -- outside the model *)
+                           if (match sizes with s0 :: _ => s <? s0 | [] => false end) then OutOfModel else
+                           rbind (td_split_pieces s sizes) (fun pcs =>
+                           Ok (map (fun se => Index (narrow_idx d (fst se) (snd se)) v) pcs))
                | None => Raised
                end
   | None => Raised
